@@ -1158,17 +1158,31 @@ func (c *immuClient) verifiedGet(ctx context.Context, kReq *schema.KeyRequest) (
 	vTx := kReq.AtTx
 	var e *store.EntrySpec
 
+	// the proof is checked for the requested key at the requested (or returned) transaction:
+	// the entry handed back to the caller must carry exactly those
 	if vEntry.Entry.ReferencedBy == nil {
+		if string(vEntry.Entry.Key) != string(kReq.Key) {
+			return nil, store.ErrCorruptedData
+		}
+
 		if kReq.AtTx == 0 {
 			vTx = vEntry.Entry.Tx
+		} else if vEntry.Entry.Tx != kReq.AtTx {
+			return nil, store.ErrCorruptedData
 		}
 
 		e = database.EncodeEntrySpec(kReq.Key, schema.KVMetadataFromProto(vEntry.Entry.Metadata), vEntry.Entry.Value)
 	} else {
 		ref := vEntry.Entry.ReferencedBy
 
+		if string(ref.Key) != string(kReq.Key) {
+			return nil, store.ErrCorruptedData
+		}
+
 		if kReq.AtTx == 0 {
 			vTx = ref.Tx
+		} else if ref.Tx != kReq.AtTx {
+			return nil, store.ErrCorruptedData
 		}
 
 		e = database.EncodeReference(kReq.Key, schema.KVMetadataFromProto(ref.Metadata), vEntry.Entry.Key, ref.AtTx)
